@@ -8,9 +8,17 @@
 //!   app_walk   (C01)  SearchSpec.check_route / check_eroute / check_tree / check_etree through SR.check_outcome
 //!   app_sums   (C03)  the exact-rational judge TR.judge (Model/TraversalRun.v) + the binary64 model TR.run (M line)
 //!   app_reach  (C05)  Reach.reachb / pwalkb / reach_set / Bellman-Ford through RR.judge (Model/ReachRun.v)
+//!   app_frontier (C04) FrontierRun.check_outcome: the raw-table judge of Model/FrontierSpec.v on route and tree, the
+//!                    [frontier] section (road_class / vehicle_restriction / turn_restriction / combined) read by the
+//!                    application from files this harness writes; M = class of the response by Frontier.build
+//!   app_limits (C10) TerminationRun.TR.check_case on a sweep of applications that differ only in [termination]; the
+//!                    limits are read off the configuration JSON in Coq (TR.configured), `error` texts are judged
+//!   app_ksp    (C13) KspRun.KR.check_case on EVERY route of the response (`route` = null / object / array of objects)
+//!                    of an application whose [algorithm] section is ksp_single_via / yens (k = 1)
 //! Lines: I = canonical facts of the response; S = the verdict computed in Coq (prints the expected text when the
-//! checkers accept, REJECT(..) otherwise); M only for app_sums (the traversal model re-walks the returned path bit for bit).
-//! Command line: e2e <app_walk|app_sums|app_reach|probe> --seed S --n N --out DIR --shards K [--replay FILE]
+//! checkers accept, REJECT(..) otherwise); M for app_sums (the traversal model re-walks the returned path bit for bit)
+//! and app_frontier.
+//! Command line: e2e <app_walk|app_sums|app_reach|app_frontier|app_limits|app_ksp|probe> --seed S --n N --out DIR --shards K [--replay FILE]
 //! (FILE = {"case": <description>} or {"cases": [...]}: the configuration and query are rebuilt from the description).
 //! `probe` prints raw responses.  Private helpers only (appkit / searchkit are read-only): the configuration writer
 //! (appkit's has no [state] section, turn delays, road-class frontier, unit choices) lives here.
@@ -2672,6 +2680,14 @@ fn add_ksp(cx: &mut Ctx, fam: &str, c: &Cfg, q: &Qry) {
     );
     let mut payload = format!("{} aa={}", sk::show_outcome(&o, 1), aa.map(|x| x.to_string()).unwrap_or("?".into()));
     let expected = payload.clone();
+    // the response renders exactly the routes the configured algorithm returns on the core API (same instance, same query)
+    if status == "Ok" {
+        let (_, core_status, core_routes) = core_counters(&app, c, &s, &query);
+        let shown: Vec<Vec<usize>> = routes.iter().map(|x| x.path.clone()).collect();
+        if core_status != "Ok" || core_routes != shown {
+            malformed.push(format!("core API returns {} {:?}", core_status, core_routes));
+        }
+    }
     if !malformed.is_empty() || aa.is_none() || matches!(r.status.as_str(), "RunErr" | "bad") {
         payload += &format!(" shape=bad:{}{}", malformed.join("+"), if aa.is_none() { "+no AcceptAll count" } else { "" });
     }
